@@ -54,8 +54,8 @@ def trunc_term(x):
     """Int term: x truncated toward zero (x Python-level float)."""
     if isinstance(x, float):
         return int(x)
-    if x.dy is not None and x.dy[1] == 0:
-        return SNum(x.dy[0])
+    if x.dy is not None and x.dy[1] <= 0:
+        return SNum(z3.simplify(x.dy[0] * (1 << -x.dy[1])))
     r = x.t
     fl = core.CTX.floor(r)
     ce = z3.simplify(-core.CTX.floor(z3.simplify(-r)))
@@ -834,6 +834,15 @@ def _ffloordiv(x, y):
     if dz is True or (dz is not False and bool(dz)):
         raise Undecided('float floor-division by zero')
     dx, dyy = core.dyadic_of(x), core.dyadic_of(y)
+    if isinstance(y, (int, float)) and dx is not None and log2_exact(abs(y)) is not None:
+        # divisor +-2^k: floor(x / y) keeps the significand (or drops low bits): always exact
+        k = log2_exact(abs(y)); sgn = 1 if y > 0 else -1
+        iw, g = dx
+        iw = z3.simplify(iw * sgn)
+        core.CTX.assumed_used.add('numpy: float64 floor_divide by a power of two is exact')
+        if g + k <= 0:
+            return SNum.float_of_intterm(iw, g + k)
+        return SNum.float_of_intterm(core.CTX.div(iw, 1 << (g + k)), 0)
     if dx is None or dyy is None:
         raise Undecided('float floor_divide without dyadic witnesses')
     core.CTX.assumed_used.add('numpy: float64 floor_divide == floor(a/b) exactly for dyadic operands with <=53 significant bits and |quotient| < 2^53')
@@ -858,6 +867,12 @@ def _fmod(x, y):
             return SNum(z3.simplify(x.t - z3.ToReal(fl)))
         raise Undecided('float remainder without dyadic witnesses')
     core.CTX.assumed_used.add('numpy: float64 remainder is exact (fmod) with the sign of the divisor')
+    if isinstance(y, (int, float)) and y > 0 and log2_exact(y) is not None:
+        k = log2_exact(y)
+        iw, g = dx
+        if g + k <= 0:
+            return 0.0
+        return SNum.float_of_intterm(core.CTX.mod(iw, 1 << (g + k)), g)
     g = max(dx[1], dyy[1])
     a = z3.simplify(dx[0] * (1 << (g - dx[1])))
     b = z3.simplify(dyy[0] * (1 << (g - dyy[1])))
